@@ -147,11 +147,27 @@ def run_exec(root: str, spec: dict[str, Any], roles: dict[str, str], knobs: dict
         return ret
 
     saved_argv = list(sys.argv)
+    guard = {"max_span": 0}
+    if spec.get("range_guard"):
+        # Observe explicit loop counts: shadow the builtin `range` in the code generator's module
+        # namespace (no change to the repository).  Absence of the module/name is ignored.
+        try:
+            import a816.parse.codegen as _cg
+
+            def _range(*a: Any) -> Any:
+                r = range(*a)
+                if len(r) > guard["max_span"]:
+                    guard["max_span"] = len(r)
+                return r
+
+            _cg.range = _range  # type: ignore[attr-defined]
+        except Exception:  # noqa: BLE001
+            pass
     with cap, env:
         value, exc, steps, timed_out = run_clocked(call, spec.get("budget"))
     sys.argv = saved_argv
 
-    out: dict[str, Any] = {"entry": entry, "steps": steps}
+    out: dict[str, Any] = {"entry": entry, "steps": steps, "max_loop_span": guard["max_span"]}
     if timed_out or isinstance(exc, StepBudgetExceeded):
         out["kind"] = "timeout"
         out["ok"] = False
